@@ -92,13 +92,16 @@ class CSSParser:
             :class:`~cssutils.css.CSSStyleDeclaration`
         """
         self.__parseSetting(True)
-        if isinstance(cssText, bytes):
-            # TODO: use codecs.getdecoder('css') here?
-            cssText = cssText.decode(encoding)
-        if validate is None:
-            validate = self._validate
-        style = css.CSSStyleDeclaration(cssText, validating=validate)
-        self.__parseSetting(False)
+        try:
+            if isinstance(cssText, bytes):
+                # TODO: use codecs.getdecoder('css') here?
+                cssText = cssText.decode(encoding)
+            if validate is None:
+                validate = self._validate
+            style = css.CSSStyleDeclaration(cssText, validating=validate)
+        finally:
+            # also if decoding or (in raising mode) parsing raised
+            self.__parseSetting(False)
         return style
 
     def parseString(
@@ -155,29 +158,32 @@ class CSSParser:
         imported sheets see it as encoding of the referring sheet.
         """
         self.__parseSetting(True)
-        # TODO: py3 needs bytes here!
-        if isinstance(cssText, bytes):
-            cssText = codecs.getdecoder('css')(
-                cssText, encoding=encodingOverride or encoding
-            )[0]
+        try:
+            # TODO: py3 needs bytes here!
+            if isinstance(cssText, bytes):
+                cssText = codecs.getdecoder('css')(
+                    cssText, encoding=encodingOverride or encoding
+                )[0]
 
-        if validate is None:
-            validate = self._validate
+            if validate is None:
+                validate = self._validate
 
-        sheet = cssutils.css.CSSStyleSheet(
-            href=href,
-            media=cssutils.stylesheets.MediaList(media),
-            title=title,
-            validating=validate,
-        )
-        sheet._setFetcher(self.__fetcher)
-        # tokenizing this ways closes open constructs and adds EOF
-        sheet._setCssTextWithEncodingOverride(
-            self.__tokenizer.tokenize(cssText, fullsheet=True),
-            encodingOverride=encodingOverride,
-            encoding=encoding,
-        )
-        self.__parseSetting(False)
+            sheet = cssutils.css.CSSStyleSheet(
+                href=href,
+                media=cssutils.stylesheets.MediaList(media),
+                title=title,
+                validating=validate,
+            )
+            sheet._setFetcher(self.__fetcher)
+            # tokenizing this ways closes open constructs and adds EOF
+            sheet._setCssTextWithEncodingOverride(
+                self.__tokenizer.tokenize(cssText, fullsheet=True),
+                encodingOverride=encodingOverride,
+                encoding=encoding,
+            )
+        finally:
+            # also if decoding, a fetcher or (in raising mode) parsing raised
+            self.__parseSetting(False)
         return sheet
 
     def parseFile(
